@@ -316,4 +316,87 @@ theorem gen_gaMut_run (ss : List Slot) (hd : Declared ss) (flip : Nat → Bool) 
   rw [wrap_of_in _ _ (by simp only [In, Ty.lo, Ty.hi]; omega)]
   simp
 
+/-! ## i_de::crossover -/
+
+theorem getI_nat {α} [Inhabited α] (l : List α) (i : Nat) (h : i < l.length) : getI l (i : Int) = l[i] := by
+  unfold getI
+  rw [if_pos (Int.natCast_nonneg _), Int.toNat_natCast, List.getD_eq_getElem?_getD, List.getElem?_eq_getElem h]
+  rfl
+
+theorem getI_nat' {α} [Inhabited α] (l : List α) (i : Nat) : getI l (i : Int) = l.getD i default := by
+  unfold getI
+  rw [if_pos (Int.natCast_nonneg _), Int.toNat_natCast]
+
+/-- `i_de::crossover` as written = the specification, for every number type and arithmetic -/
+theorem gen_deXo_run {F} [Inhabited F] (A : Arith F) (rf : F) (flip : Nat → Bool) (t a b c : De F)
+    (ha : a.genome.length = t.genome.length) (hb : b.genome.length = t.genome.length)
+    (hc : c.genome.length = t.genome.length) (hn : 1 ≤ t.genome.length)
+    (hN : t.genome.length < 9223372036854775808)
+    (hat : t.age < 4294967296) (haa : a.age < 4294967296) (hab : b.age < 4294967296) (hac : c.age < 4294967296) :
+    Gen.deXo.run Gen.age A rf flip t a b c = deCrossover A rf flip t a b c := by
+  unfold DeXoCode.run deCrossover
+  simp only [Gen.deXo]
+  rw [De.mk.injEq]
+  constructor
+  · -- genome
+    rw [safe_sound _ (.bin .sub .u64 (.var 0) (.lit 1)) (by safe_tac)]
+    simp only [evalZ, evalM, binZ, envOf, List.getD_cons_zero, List.getD_cons_succ]
+    rw [forRange_congr _ _ _ (fun i st => setI st i ((fun j x =>
+        if flip j then A.add x (A.mul rf (A.sub (a.genome.getD j default) (b.genome.getD j default)))
+        else t.genome.getD j default) i.toNat (getI st i))) _
+      (by
+        intro i _ _ st
+        simp only [Assign.exec, RE.eval, evalM, envOf, List.getD_cons_zero, List.getD_cons_succ,
+          Int.toNat_natCast, getI_nat']
+        split <;> rfl)]
+    have e0 : (0 : Int) = ((0 : Nat) : Int) := rfl
+    have e1 : (t.genome.length : Int) - 1 = ((t.genome.length - 1 : Nat) : Int) := by omega
+    rw [e0, e1, forRange_pointSet (fun j x =>
+        if flip j then A.add x (A.mul rf (A.sub (a.genome.getD j default) (b.genome.getD j default)))
+        else t.genome.getD j default) 0 (t.genome.length - 1) c.genome (by omega) (by omega)]
+    simp only [Assign.exec, RE.eval]
+    rw [safe_sound _ (.bin .sub .u64 (.var 0) (.lit 1)) (by safe_tac)]
+    simp only [evalZ, binZ, envOf, List.getD_cons_zero]
+    rw [e1]
+    apply List.ext_getElem?
+    intro i
+    by_cases hi : i < t.genome.length
+    · rw [trial_get A rf flip _ _ _ _ ha hb hc i hi]
+      unfold setI
+      rw [if_pos (Int.natCast_nonneg _), Int.toNat_natCast, List.getElem?_set]
+      simp only [List.length_mapIdx, getI_nat']
+      have hic : i < c.genome.length := by omega
+      have hia : i < a.genome.length := by omega
+      have hib : i < b.genome.length := by omega
+      by_cases he : t.genome.length - 1 = i
+      · subst he
+        have hlt : t.genome.length - 1 < c.genome.length := by omega
+        simp only [if_true, hlt, true_or]
+        simp only [List.getD_eq_getElem?_getD, List.getElem?_mapIdx, List.getElem?_eq_getElem hic,
+          List.getElem?_eq_getElem hia, List.getElem?_eq_getElem hib, Option.map_some, Option.getD_some, mutant]
+        have : ¬ (0 ≤ t.genome.length - 1 ∧ t.genome.length - 1 < t.genome.length - 1) := by omega
+        simp only [this, if_false]
+      · have hne : ¬ (i = t.genome.length - 1) := fun h => he h.symm
+        simp only [he, if_false, hne, false_or]
+        simp only [List.getElem?_mapIdx, List.getElem?_eq_getElem hic, Option.map_some,
+          List.getD_eq_getElem?_getD, List.getElem?_eq_getElem hia, List.getElem?_eq_getElem hib,
+          List.getElem?_eq_getElem hi, Option.getD_some, mutant]
+        have : (0 ≤ i ∧ i < t.genome.length - 1) := by omega
+        simp only [this, and_self, if_true]
+    · have h1 : (trial A rf flip t.genome a.genome b.genome c.genome)[i]? = none :=
+        List.getElem?_eq_none (by rw [trial_length A rf flip _ _ _ _ ha hb hc]; omega)
+      rw [h1]
+      apply List.getElem?_eq_none
+      unfold setI
+      rw [if_pos (Int.natCast_nonneg _)]
+      simp only [List.length_set, List.length_mapIdx]
+      omega
+  · -- age
+    simp only [List.map_cons, List.map_nil, List.foldl_cons, List.foldl_nil]
+    rw [gen_age_read _ (by omega) (by omega), gen_age_read _ (by omega) (by omega),
+      gen_age_read _ (by omega) (by omega),
+      gen_age_older _ _ (by omega) (by omega) (by omega) (by omega)]
+    unfold olderAge
+    split <;> omega
+
 end Vita.C17
